@@ -230,3 +230,89 @@ fn q_h06trk__duration_framerate_bitrate() {
     std::mem::forget(track);
 }
 
+
+// ------------------------------------------------------------------------------------------
+// Fragment side: Mp4Track with arbitrary trafs *as the decoders can produce them* (per-sample
+// vectors have sample_count entries exactly for the flagged fields; one moof offset per traf, as
+// read_header pushes them), every value symbolic, every sample id.
+fn arbitrary_traf<const N: usize>(flags: u32) -> TrafBox {
+    let mut tfhd = TfhdBox::default();
+    tfhd.track_id = 1;
+    if kani::any() {
+        tfhd.base_data_offset = Some(kani::any());
+    }
+    if kani::any() {
+        tfhd.default_sample_duration = Some(kani::any());
+    }
+    let mut trun = TrunBox::default();
+    trun.flags = flags;
+    trun.sample_count = N as u32;
+    if flags & 0x001 != 0 {
+        trun.data_offset = Some(kani::any());
+    }
+    let a: [u32; N] = kani::any();
+    let b: [u32; N] = kani::any();
+    let c: [u32; N] = kani::any();
+    if flags & 0x100 != 0 {
+        trun.sample_durations = a.to_vec();
+    }
+    if flags & 0x200 != 0 {
+        trun.sample_sizes = b.to_vec();
+    }
+    if flags & 0x800 != 0 {
+        trun.sample_cts = c.to_vec();
+    }
+    let tfdt = if kani::any() { Some(TfdtBox { version: 1, flags: 0, base_media_decode_time: kani::any() }) } else { None };
+    TrafBox { tfhd, tfdt, trun: Some(trun) }
+}
+
+fn h06_frag<const N1: usize, const N2: usize>(f1: u32, f2: u32, two: bool) {
+    let mut trak = TrakBox::default();
+    trak.tkhd.track_id = 1;
+    let mut track = Mp4Track { trak, trafs: Vec::new(), moof_offsets: Vec::new(), default_sample_duration: kani::any() };
+    track.trafs.push(arbitrary_traf::<N1>(f1));
+    track.moof_offsets.push(kani::any());
+    if two {
+        track.trafs.push(arbitrary_traf::<N2>(f2));
+        track.moof_offsets.push(kani::any());
+    }
+    let k: u32 = kani::any();
+    let _ = track.sample_count();
+    match track.sample_offset(k) {
+        Ok(_) => {}
+        Err(e) => std::mem::forget(e),
+    }
+    let data: [u8; 8] = kani::any();
+    let mut cur = Cursor::new(&data[..]);
+    match track.verif_read_sample(&mut cur, k) {
+        Ok(Some(s)) => {
+            kani::cover!(true, "(opt) sample returned");
+            std::mem::forget(s);
+        }
+        Ok(None) => {}
+        Err(e) => std::mem::forget(e),
+    }
+    kani::cover!(true, "returned");
+    std::mem::forget(track);
+}
+
+#[kani::proof]
+#[kani::unwind(5)]
+fn t_h06frag__one_traf_n2_sizes_durations() {
+    h06_frag::<2, 0>(0x301, 0, false)
+}
+#[kani::proof]
+#[kani::unwind(5)]
+fn t_h06frag__one_traf_n1_sizes_only() {
+    h06_frag::<1, 0>(0x200, 0, false)
+}
+#[kani::proof]
+#[kani::unwind(5)]
+fn q_h06frag__two_trafs_n1_n0() {
+    h06_frag::<1, 0>(0xb01, 0x200, true)
+}
+#[kani::proof]
+#[kani::unwind(5)]
+fn t_h06frag__two_trafs_n2_n1_no_sizes() {
+    h06_frag::<2, 1>(0x100, 0x800, true)
+}
